@@ -447,8 +447,9 @@ func main() {
 		if eng == nil {
 			fatalf("unknown engine %q", a["engine"])
 		}
-		if a["preflight"] == "true" {
+		if a["preflight"] != "" {
 			os.Setenv("VERIF_PREFLIGHT", "1")
+			preflightPart = atoi(a["preflight"], 0)
 		}
 		if a["warm"] == "true" {
 			os.Setenv("VERIF_WARM", "1") // read by Engine.Init
@@ -732,8 +733,9 @@ func checkMain(a map[string]string) int {
 				out := filepath.Join(scratch, fmt.Sprintf("b%d.json", bi))
 				cur := filepath.Join(scratch, fmt.Sprintf("b%d.cur.json", bi))
 				args := []string{"batch", "--engine", cfg.engine, "--seed", strconv.FormatUint(bseed, 10), "--checks", strconv.Itoa(checks), "--tier", tier, "--out", out, "--cur", cur, "--deadline", strconv.FormatInt(deadline.UnixMilli(), 10)}
-				if bi == 0 {
-					args = append(args, "--preflight")
+				if bi < preflightParts {
+					// the once-per-run enumerations, split over the first batches
+					args = append(args, "--preflight", strconv.Itoa(bi))
 				}
 				if enumTotal >= 0 {
 					args = append(args, "--enumfrom", strconv.Itoa(bi*checks), "--enumto", strconv.Itoa((bi+1)*checks))
@@ -907,7 +909,11 @@ var childTimeout time.Duration
 var (
 	curTier      string
 	curBatchSeed uint64
+	// which part of the once-per-run enumerations this batch performs
+	preflightPart int
 )
+
+const preflightParts = 3
 
 var (
 	childMu   sync.Mutex
